@@ -1001,6 +1001,22 @@ def add_padding_fields(op, arch, nng):
                     output_shape.height // input_shape.height,
                     output_shape.width // input_shape.width,
                 )
+            elif op.type == Op.Conv2DBackpropInputSwitchedBias:
+                # Transpose convolution without upscale (stride 1): a convolution with the flipped kernel in which
+                # the leading padding is kernel size - 1 - the leading padding of the transpose convolution, and the
+                # trailing padding is whatever is left to produce the OFM
+                k_h, k_w = int(kernel_size[0]), int(kernel_size[1])
+                if op.attrs["padding"] == Padding.SAME:
+                    tconv_top = max(int(input_shape.height) - 1 + k_h - int(output_shape.height), 0) // 2
+                    tconv_left = max(int(input_shape.width) - 1 + k_w - int(output_shape.width), 0) // 2
+                else:
+                    tconv_top = tconv_left = 0
+                top_pad = k_h - 1 - tconv_top
+                left_pad = k_w - 1 - tconv_left
+                bottom_pad = int(output_shape.height) - int(input_shape.height) + k_h - 1 - top_pad
+                right_pad = int(output_shape.width) - int(input_shape.width) + k_w - 1 - left_pad
+                padding = (top_pad, left_pad, bottom_pad, right_pad)
+                skirt = padding
             else:
                 padding, skirt = calc_padding_and_skirt(
                     op.attrs["padding"],
